@@ -2,12 +2,13 @@
 SPECIFICATION Spec
 CONSTANTS
   Clients = {"c1", "c2"}
-  MaxReq = 1
+  MaxReq = 2
   JunkKinds = {"garbage", "badnoise", "cberr"}
   MaxJunk = 1
   MaxDup = 1
   MaxDrop = 1
   MaxClose = 1
+  Faults = {"DropQ", "DupQ", "ReplayQ", "DropR", "DupR"}
   StaleMode = "fail"
   KeyCheck = TRUE
   Timeout = FALSE
